@@ -883,3 +883,189 @@ Definition c16_flat_show (k : c16_flat_case) :=
   let '(pt, cls, kw, fresh, ob, of) := k in
   let P := parse_of pt in
   (map (fun '(m, q, v, _) => text_cast m q v) pt, init P cls fresh kw, bind (init P cls fresh kw) (to_flatcolumn P fresh)).
+
+(* ==================== sessions: the same objects used again after being changed (round 3) ====================
+   Python objects are mutable: a column built for one purpose is later given another length, an alias is appended
+   to the very list the schema holds, a column object is listed twice, the columns list itself grows.  to_dict /
+   from_dict / to_json / from_json / to_flatcolumn are methods of those objects, called again and again.  The model
+   makes this explicit: a HEAP of column objects (position i = the object built from the i-th definition), the
+   schema's columns list as a list of REFERENCES into the heap (the same object may be referenced several times),
+   the schema's own attributes, and a small-step semantics of the operations a caller can perform.  Observing
+   operations ([SRound], [SJson], [SScribble], [FFlatten]) do not change the state and their results are functions
+   of the CURRENT values only ([view]) - whatever happened before, including earlier observations.  The
+   correspondence runs such sessions on the real objects. *)
+Definition dummy_column : column := build (fun _ => PNone).
+
+Fixpoint upd {A : Type} (i : nat) (f : A -> A) (l : list A) : list A :=
+  match l, i with
+  | [], _ => []
+  | x :: r, O => f x :: r
+  | x :: r, S j => x :: upd j f r
+  end.
+
+(* obj.attr.append(a): only lists can be appended to *)
+Definition append_pv (v : pv) (a : atom) : option pv :=
+  match v with PL l => Some (PL (l ++ [a])) | PA _ => None end.
+
+Inductive topf := TName | TAliases | TPk | TRcm | TRce | TDsm | TDse.
+Definition top_get (t : topf) (s : schema) : pv :=
+  match t with
+  | TName => s_name s | TAliases => s_aliases s | TPk => s_pk s
+  | TRcm => s_rcm s | TRce => s_rce s | TDsm => s_dsm s | TDse => s_dse s
+  end.
+Definition top_set (t : topf) (v : pv) (s : schema) : schema :=
+  mkschema (match t with TName => v | _ => s_name s end) (match t with TAliases => v | _ => s_aliases s end)
+           (s_columns s) (match t with TPk => v | _ => s_pk s end)
+           (match t with TRcm => v | _ => s_rcm s end) (match t with TRce => v | _ => s_rce s end)
+           (match t with TDsm => v | _ => s_dsm s end) (match t with TDse => v | _ => s_dse s end).
+
+(* heap of column objects, the schema's columns list (references), the schema's own attributes (its s_columns unused) *)
+Definition sstate : Type := (list column * list nat * schema)%type.
+Definition view (st : sstate) : schema :=
+  let '(h, refs, top) := st in
+  mkschema (s_name top) (s_aliases top) (map (fun i => nth i h dummy_column) refs) (s_pk top)
+           (s_rcm top) (s_rce top) (s_dsm top) (s_dse top).
+
+Inductive sop :=
+| SColSet (o : nat) (f : field) (v : pv)        (* obj_o.f = v *)
+| SColAppend (o : nat) (f : field) (a : atom)   (* obj_o.f.append(a) *)
+| STopSet (t : topf) (v : pv)                   (* schema.t = v *)
+| STopAppend (a : atom)                         (* schema.aliases.append(a) *)
+| SListAppend (o : nat)                         (* schema.columns.append(obj_o) *)
+| SListPop                                      (* schema.columns.pop() *)
+| SScribble                                     (* the caller appends to the lists inside the dictionary returned last *)
+| SRound (od : result odict) (orest : result oschema)     (* schema.to_dict(), RelationSchema.from_dict(schema.to_dict()): observed *)
+| SJson (o : nat) (oj : result jval) (back : robs).       (* obj_o.to_json(), FlatColumn.from_json(obj_o.to_json()): observed *)
+
+(* the state after one operation; None: the operation is outside the model (append to something that is not a list) *)
+Definition step (st : sstate) (op : sop) : option sstate :=
+  let '(h, refs, top) := st in
+  match op with
+  | SColSet o f v => Some (upd o (set f v) h, refs, top)
+  | SColAppend o f a =>
+      match append_pv (get f (nth o h dummy_column)) a with
+      | Some v => Some (upd o (set f v) h, refs, top)
+      | None => None
+      end
+  | STopSet t v => Some (h, refs, top_set t v top)
+  | STopAppend a =>
+      match append_pv (s_aliases top) a with
+      | Some v => Some (h, refs, top_set TAliases v top)
+      | None => None
+      end
+  | SListAppend o => Some (h, refs ++ [o], top)
+  | SListPop => Some (h, removelast refs, top)
+  | SScribble | SRound _ _ | SJson _ _ _ => Some st
+  end.
+Fixpoint exec (st : sstate) (ops : list sop) : option sstate :=
+  match ops with
+  | [] => Some st
+  | op :: r => match step st op with Some st' => exec st' r | None => None end
+  end.
+
+(* what an observing operation must return in state st *)
+Definition obs_ok (P : str -> params -> pv -> result pv) (sers : list ser_table) (built : list column)
+                  (st : sstate) (op : sop) : bool :=
+  match op with
+  | SRound od orest =>
+      let s := view st in
+      let bases := map (fun i => nth i built dummy_column) (snd (fst st)) in
+      result_eqb sdict_eqb (Ok (to_dict s)) (bind od (fun o => Ok (resolve_dict bases o))) &&
+      result_eqb schema_eqb (from_dict P (fun _ => []) (to_dict s)) (bind orest (resolve_schema bases))
+  | SJson o oj back =>
+      let c := nth o (fst (fst st)) dummy_column in
+      let S := ser_of (nth o sers []) in
+      result_eqb jval_eqb (to_json S c) oj &&
+      result_eqb column_eqb (bind (to_json S c) (from_json P [])) (resolve (Ok (nth o built dummy_column)) back)
+  | _ => true
+  end.
+Fixpoint ssess_run (P : str -> params -> pv -> result pv) (sers : list ser_table) (built : list column)
+                   (st : sstate) (ops : list sop) : bool :=
+  match ops with
+  | [] => true
+  | op :: r => obs_ok P sers built st op &&
+               match step st op with Some st' => ssess_run P sers built st' r | None => false end
+  end.
+
+(* a schema session: the single-shot case (whose observations were made first, on the same objects), the columns list
+   as references (a column given as "the same object as column i" refers to i), the operations *)
+Definition c16_ssess_case : Type := (c16_schema_case * list nat * list sop)%type.
+Definition c16_ssess_check (k : c16_ssess_case) : bool :=
+  let '(base, refs, ops) := k in
+  c16_schema_check base &&
+  let '(pt, top, cols, _, _) := base in
+  let '(n, al, pk, rcm, rce, dsm, dse) := top in
+  match all_some (map built_ok cols) with
+  | None => true
+  | Some cs => ssess_run (parse_of pt) (map (fun x => o_ser (snd x)) cols) cs
+                         (cs, refs, mkschema n al [] pk rcm rce dsm dse) ops
+  end.
+Definition c16_ssess_show (k : c16_ssess_case) :=
+  let '(base, refs, ops) := k in
+  let '(pt, top, cols, _, _) := base in
+  let '(n, al, pk, rcm, rce, dsm, dse) := top in
+  (c16_schema_show base,
+   match all_some (map built_ok cols) with
+   | None => None
+   | Some cs =>
+       Some ((fix go (st : sstate) (ops : list sop) :=
+          match ops with
+          | [] => []
+          | op :: r =>
+              (match op with
+               | SRound _ _ => Some (to_dict (view st), from_dict (parse_of pt) (fun _ => []) (to_dict (view st)))
+               | _ => None
+               end) :: match step st op with Some st' => go st' r | None => [] end
+          end) (cs, refs, mkschema n al [] pk rcm rce dsm dse) ops)
+   end).
+
+(* ---------- a session on one column object of any class: assignments, in-place appends, to_flatcolumn ---------- *)
+Inductive fop :=
+| FSet (f : field) (v : pv)
+| FAppend (f : field) (a : atom)
+| FFlatten (cur : robs) (out : robs).    (* observed: the object after the call (it must not have changed), the result *)
+Definition fstep (c : column) (op : fop) : option column :=
+  match op with
+  | FSet f v => Some (set f v c)
+  | FAppend f a => match append_pv (get f c) a with Some v => Some (set f v c) | None => None end
+  | FFlatten _ _ => Some c
+  end.
+Fixpoint fexec (c : column) (ops : list fop) : option column :=
+  match ops with
+  | [] => Some c
+  | op :: r => match fstep c op with Some c' => fexec c' r | None => None end
+  end.
+Fixpoint fsess_run (P : str -> params -> pv -> result pv) (fresh : str) (ob : result column) (c : column) (ops : list fop) : bool :=
+  match ops with
+  | [] => true
+  | op :: r =>
+      (match op with
+       | FFlatten cur out => result_eqb column_eqb (Ok c) (resolve ob cur) &&
+                             result_eqb column_eqb (to_flatcolumn P fresh c) (resolve ob out)
+       | _ => true
+       end) &&
+      match fstep c op with Some c' => fsess_run P fresh ob c' r | None => false end
+  end.
+Definition c16_fsess_case : Type := (c16_flat_case * list fop)%type.
+Definition c16_fsess_check (k : c16_fsess_case) : bool :=
+  let '(base, ops) := k in
+  c16_flat_check base &&
+  let '(pt, cls, kw, fresh, ob, _) := base in
+  match init (parse_of pt) cls fresh kw with
+  | Ok c => fsess_run (parse_of pt) fresh ob c ops
+  | Raise _ => true
+  end.
+Definition c16_fsess_show (k : c16_fsess_case) :=
+  let '(base, ops) := k in
+  let '(pt, cls, kw, fresh, ob, _) := base in
+  (c16_flat_show base,
+   match init (parse_of pt) cls fresh kw with
+   | Ok c =>
+       (fix go (c : column) (ops : list fop) :=
+          match ops with
+          | [] => []
+          | op :: r => (match op with FFlatten _ _ => Some (c, to_flatcolumn (parse_of pt) fresh c) | _ => None end)
+                       :: match fstep c op with Some c' => go c' r | None => [] end
+          end) c ops
+   | Raise _ => []
+   end).
